@@ -537,6 +537,7 @@ impl IdBook {
 }
 
 static POISONED: AtomicBool = AtomicBool::new(false);
+static TASK_PANICKED: AtomicBool = AtomicBool::new(false);
 
 pub fn run_shut_case(which: Which, case: &ShutCase) -> SeqOutcome {
     let mut outc = SeqOutcome { violations: vec![], labels: vec![], steps_run: 0, extra_evals: 0, counters: vec![], ticks: 0, fault_fired: false };
@@ -556,6 +557,14 @@ pub fn run_shut_case(which: Which, case: &ShutCase) -> SeqOutcome {
     let case_a = Arc::new(case.clone());
     let sh2 = sh.clone();
     let body = move || {
+        if TASK_PANICKED.load(Ordering::SeqCst) {
+            // an earlier execution of this Runner had a panic inside a task: shuttle's primitives
+            // are in an inconsistent state from then on, nothing later can be trusted
+            return;
+        }
+        if let Ok(mut g) = crate::drive::FIRST_PANIC.lock() {
+            *g = None;
+        }
         let case = &*case_a;
         let it = sh2.iters_done.load(Ordering::SeqCst);
         let prog = Arc::new(case.prog.clone());
@@ -671,6 +680,14 @@ pub fn run_shut_case(which: Which, case: &ShutCase) -> SeqOutcome {
             sh2.page_shared.store(true, Ordering::Relaxed);
         }
         drop(world);
+        let first_panic = crate::drive::FIRST_PANIC.lock().ok().and_then(|g| g.clone());
+        if let Some(msg) = first_panic {
+            // report the root panic only; other panics, mismatches and protocol complaints of this
+            // execution are its consequences
+            v.clear();
+            v.push(viol("unexpected-panic", format!("first panic of the execution: {}", msg.replace('\n', " ").chars().take(500).collect::<String>())));
+            TASK_PANICKED.store(true, Ordering::SeqCst);
+        }
         if !v.is_empty() {
             let mut g = sh2.violations.lock().unwrap();
             for x in v {
@@ -695,7 +712,11 @@ pub fn run_shut_case(which: Which, case: &ShutCase) -> SeqOutcome {
     let done = sh.iters_done.load(Ordering::SeqCst);
     outc.steps_run = done as usize;
     outc.extra_evals = done.saturating_sub(1);
-    if let Err(p) = res {
+    let task_panicked = TASK_PANICKED.load(Ordering::SeqCst);
+    if task_panicked {
+        POISONED.store(true, Ordering::SeqCst);
+    }
+    if let (Err(p), false) = (res, task_panicked) {
         POISONED.store(true, Ordering::SeqCst);
         let msg = classify_panic(p).text();
         let rule = if msg.contains("deadlock") {
